@@ -222,6 +222,11 @@ def dimap_family():
     ig, iw = inner.importance(KEY, C.kw(x=0.4), (0.3,))
     if not close(w, iw):
         fail("dimap.generate: weight != inner weight", w=w, iw=iw)
+    if not (len(g.get_args()) == 2 and close(g.get_args()[0], 0.1) and close(g.get_args()[1], 0.2)):
+        fail("dimap.generate: the trace's arguments are not the OUTER arguments", args=g.get_args())
+    g_up, w_up, _, _ = g.update(KEY, C.empty())          # (default argdiffs = no_change(trace.get_args()))
+    if not (close(w_up, 0.0) and close(g_up.get_score(), g.get_score())):
+        fail("dimap.generate: an empty update with default argdiffs is not the identity (pre applied twice?)", w=w_up)
     for ad in (Diff.no_change((0.1, 0.2)), (Diff(0.5, UnknownChange), Diff(0.2, NoChange))):
         new, w, rd, bwd = d.edit(KEY, tr, Update(C.kw(y=0.3)), ad)
         wf(new, "dimap.edit")
@@ -469,6 +474,12 @@ def scan_family():
         if n == 4:
             g, w = sc.importance(KEY, C.empty().at[2, "z"].set(1.0), (0.5, xs))
             wf(g, "scan.generate")
+            # project: the sum of the iterations' projections under the same selection (complements and leaf selections too)
+            for nm, s_, want in (("S['z']", S.at["z"], tr.get_score()), ("~S['z']", ~S.at["z"], 0.0), ("all", S.all(), tr.get_score()),
+                                 ("none", S.none(), 0.0), ("~S['q']", ~S.at["q"], tr.get_score())):
+                got = sc.project(KEY, tr, s_)
+                if not close(got, want):
+                    fail("scan.project: not the sum of the iterations' projections under the same selection", sel=nm, got=got, want=want)
             new, w, rd, bwd = sc.edit(KEY, tr, Update(C.empty().at[1, "z"].set(0.3)), Diff.no_change((0.5, xs)))
             wf(new, "scan.edit_update")
             if not close(w, new.get_score() - tr.get_score()):
@@ -1060,22 +1071,25 @@ def staging_family():
             r = tree_choose(mk(idx), vals)
             if not (close(r[0], vals[idx % 3][0]) and close(r[1]["u"], vals[idx % 3][1]["u"])):
                 fail("tree_choose: not element idx mod n", idx=idx, kind=kind, got=r)
-    fs = [lambda x: x + 1.0, lambda x: x * 10.0, lambda x: jnp.stack([x, x])]
-    args = [(1.0,), (2.0,), (3.0,)]
-    outs = [2.0, 20.0, jnp.array([3.0, 3.0])]
-    for idx in (-7, -3, -2, -1, 0, 1, 2, 3, 10):
-        c = min(max(idx, 0), 2)
-        for kind, run in (("int", lambda i: multi_switch(i, fs, args)), ("array", lambda i: multi_switch(jnp.array(i), fs, args)),
-                          ("jit", lambda i: jax.jit(lambda t: multi_switch(t, fs, args))(jnp.array(i)))):
-            try:
-                r = run(idx)
-            except Exception as e:
-                fail("multi_switch raises", idx=idx, kind=kind, error=type(e).__name__)
-                continue
-            for j in range(3):
-                want = outs[j] if j == c else jnp.zeros_like(outs[j])
-                if jnp.shape(r[j]) != jnp.shape(want) or not close(r[j], want):
-                    fail("multi_switch: slot j is not (branch output if j == clamp(idx) else zeros)", idx=idx, kind=kind, slot=j, got=r[j])
+    fs3 = [lambda x: x + 1.0, lambda x: x * 10.0, lambda x: jnp.stack([x, x])]
+    args3 = [(1.0,), (2.0,), (3.0,)]
+    outs3 = [2.0, 20.0, jnp.array([3.0, 3.0])]
+    for nb in (3, 2):          # (two branches separately: a two-way switch is the obvious candidate for a cond-based shortcut)
+        fs, args, outs = fs3[:nb], args3[:nb], outs3[:nb]
+        for idx in (-7, -3, -2, -1, 0, 1, 2, 3, 10):
+            c = min(max(idx, 0), nb - 1)
+            for kind, run in (("int", lambda i: multi_switch(i, fs, args)), ("array", lambda i: multi_switch(jnp.array(i), fs, args)),
+                              ("jit", lambda i: jax.jit(lambda t: multi_switch(t, fs, args))(jnp.array(i)))):
+                try:
+                    r = run(idx)
+                except Exception as e:
+                    fail("multi_switch raises", idx=idx, kind=kind, branches=nb, error=type(e).__name__)
+                    continue
+                for j in range(nb):
+                    want = outs[j] if j == c else jnp.zeros_like(outs[j])
+                    if jnp.shape(r[j]) != jnp.shape(want) or not close(r[j], want):
+                        fail("multi_switch: slot j is not (branch output if j == clamp(idx) else zeros)", idx=idx, kind=kind, branches=nb,
+                             slot=j, got=r[j])
 
 
 def invalid_subset_family():
@@ -1858,7 +1872,7 @@ def selection_family():
 
 
 FAMILIES = [
-    (("C19.Mask.", "Mask._or_idx"), mask_algebra_family), (("C18.", ".AndSel.", ".OrSel.", ".ComplementSel."), selection_family), ((".Diff.",), diff_family),
+    (("C19.Mask.", "Mask._or_idx", ".Mask.or.", ".Mask.xor.", ".Mask.or_n.", ".Mask.maybe_mask."), mask_algebra_family), (("C18.", ".AndSel.", ".OrSel.", ".ComplementSel."), selection_family), ((".Diff.",), diff_family),
     (("C30.",), vi_family), (("C29.", "TailCallADEVPrimitive", "eval_jaxpr_adev"), adev_family), (("C28.", "sample_momenta"), hmc_family), (("C20.", "FlagOp", "multi_switch", "tree_choose"), staging_family), (("C33.",), invalid_subset_family),
     (("C38.", ".EmptyRequest.", "edit_static_request"), derived_family), (("C36.",), stateful_family), (("C09.", "incremental"), incremental_family), (("C04.",), key_family), (("C21.",), pytree_family), (("C25.", "Marginal"), marginal_family), (("C27.", "Rejuvenate"), rejuvenate_family), (("C31.",), time_travel_family), (("C17.",), choice_map_family), (("C26.",), smc_family),
     (("MaskCombinator", "MaskTrace"), mask_family), (("Distribution", "ExactDensity", "C24."), distribution_family),
